@@ -304,6 +304,21 @@ def run(env, rep):
     rep.check("C10.R9", "state-changes-only-along-the-workflow", n9 >= 6 and not bad9,
               "current_state / active_stream_id change only on paths that consumed the answered transaction or start from a state the transition allows (%d paths)" % n9,
               "; ".join(sorted(set(bad9))[:3]) or "fewer state-changing paths than expected", bodies["handle_on_status_command"].span if "handle_on_status_command" in bodies else None)
+    # ------------------------------------------------------------------ R10 a refusal changes nothing but the transaction it consumed
+    n10 = 0
+    for name, paths in sorted(traces.items()):
+        for p in paths:
+            rets = [t for t in p if t[0] == "returns"]
+            text = str(rets[-1][1]) if rets else ""
+            if not text.startswith("Err(ClientSessionError::"):
+                continue
+            n10 += 1
+            eff = ["%s := %s" % (t[1], str(t[2])[:40]) for t in p if t[0] == "store" and t[1] in ("current_state", "active_stream_id", "connected_app_name")]
+            vname = text[len("Err(ClientSessionError::"):].split("(")[0].split(")")[0]
+            rep.check("C10.R10", "%s|refusal:%s|state-unchanged" % (name, vname), not eff, "%s: the path that refuses with %s leaves the session state alone" % (name, vname),
+                      "%s refuses with %s but has already changed the session: %s (a refused answer must not advance the workflow)" % (name, vname, "; ".join(sorted(set(eff))[:3])),
+                      bodies[name].span if name in bodies else None)
+    rep.floor("C10.R10", "refusing paths of the client session", n10, 3)
     # ------------------------------------------------------------------ R6 ping
     paths = traces.get("handle_ping_request", [])
     okp = any(t[0] == "call" and t[1].endswith("into_message_payload") and re.search(r"UserControlEventType::PingResponse, None, None, load\(timestamp\)\)", t[2][0]) for p in paths for t in p)
@@ -366,3 +381,8 @@ def run(env, rep):
                       "the transaction is looked up under %s: a lossy conversion of the peer's f64 transaction id that is not checked for exactness (a _result with id 1.5 is applied to transaction 1)" % k,
                       bodies[name].span)
     rep.floor("C10.R7", "transaction lookups keyed by a converted id", n7, 1)
+    # ------------------------------------------------------------------ R11 the command codec hands the transaction id on unchanged (C13 R2)
+    from ..framework import PrefixReport, wants
+    if wants(rep, "C10.R11"):
+        from . import C13
+        C13.run(env, PrefixReport(rep, "C13.R2", "C10.R11", only=("C13.R2",), keys=lambda k: "Amf0Command" in str(k) or "anchor" in str(k)))
